@@ -13,6 +13,15 @@ import (
 	"github.com/bianjieai/tibc-go/modules/tibc/core/exported"
 )
 
+// checkClientActive refuses to verify proofs through a light client that is not active (e.g. expired):
+// its trusted states are too old to be relied upon.
+func (k Keeper) checkClientActive(ctx sdk.Context, chainName string, clientState exported.ClientState) error {
+	if status := clientState.Status(ctx, k.clientKeeper.ClientStore(ctx, chainName), k.cdc); status != exported.Active {
+		return errorsmod.Wrapf(clienttypes.ErrClientNotActive, "client (%s) status is %s", chainName, status)
+	}
+	return nil
+}
+
 // SendPacket is called by a module to send an TIBC packet on a port owned
 // by the calling module to the corresponding module on the counterparty chain.
 func (k Keeper) SendPacket(ctx sdk.Context, packet exported.PacketI) error {
@@ -100,6 +109,9 @@ func (k Keeper) RecvPacket(
 	targetClient, found := k.clientKeeper.GetClientState(ctx, fromChain)
 	if !found {
 		return errorsmod.Wrap(clienttypes.ErrClientNotFound, fromChain)
+	}
+	if err := k.checkClientActive(ctx, fromChain, targetClient); err != nil {
+		return err
 	}
 
 	commitment := types.CommitPacket(packet)
@@ -274,6 +286,9 @@ func (k Keeper) AcknowledgePacket(
 	if !found {
 		return errorsmod.Wrap(clienttypes.ErrClientNotFound, fromChain)
 	}
+	if err := k.checkClientActive(ctx, fromChain, clientState); err != nil {
+		return err
+	}
 
 	ackCommitment := types.CommitAcknowledgement(acknowledgement)
 	if err := clientState.VerifyPacketAcknowledgement(ctx,
@@ -409,6 +424,9 @@ func (k Keeper) RecvCleanPacket(
 
 	if !found {
 		return errorsmod.Wrap(clienttypes.ErrClientNotFound, fromChain)
+	}
+	if err := k.checkClientActive(ctx, fromChain, targetClient); err != nil {
+		return err
 	}
 
 	if err := targetClient.VerifyPacketCleanCommitment(ctx,
